@@ -95,6 +95,10 @@ def cfg_text(consts, spec=None, init="Init", next_="Next", invariants=(), proper
     for k, v in consts.items():
         if k == "Prefix":
             continue
+        if k == "MaxEntries":                   # exploration only: definition override of Base!MaxEntries
+            if v:
+                lines.append("  MaxEntries <- MaxEntriesOn")
+            continue
         if k == "PayLag":                       # exploration only: definition override of Base!PayLag
             if v:
                 lines.append("  PayLag <- PayLagOn")
